@@ -118,6 +118,8 @@ class Built:
             return self.domain_lists[dom_id]
         if kind == "gen":
             return eworld.stream(dom_id, self.domain_lists[dom_id])
+        if kind == "sized":
+            return eworld.SizedDomain(dom_id, self.domain_lists[dom_id])
         if kind == "inf":
             return eworld.endless_stream(
                 dom_id, eworld.ITEM_TYPES[dom.get("t", "A")], 100000 * (dom_id + 1), dom["pattern"]
